@@ -68,9 +68,9 @@ func c11SSScenarios() []sched.Scenario {
 			return secretsharing.Verify(2, s, x.ss.CommitSecret())
 		}
 		scs = append(scs,
-			sched.Scenario{Name: "secretsharing/" + name + "/Recover||Recover||Verify", Setup: fresh,
+			sched.Scenario{Cost: 20, Name: "secretsharing/" + name + "/Recover||Recover||Verify", Setup: fresh,
 				Threads: []func(interface{}) interface{}{recover(0, 1, 2), recover(3, 1, 0), verifyAll}},
-			sched.Scenario{Name: "secretsharing/" + name + "/ShareWithID+Commit||Verify", Setup: fresh,
+			sched.Scenario{Cost: 20, Name: "secretsharing/" + name + "/ShareWithID+Commit||Verify", Setup: fresh,
 				Threads: []func(interface{}) interface{}{shareAndVerify, verifyAll}})
 	}
 	return scs
